@@ -54,6 +54,19 @@ func buildCases(o *vh.Opts) []Case {
 			}
 			cases = append(cases, Case{Stream: "bomb", Family: fam, Depth: dd, Query: bombQuery(fam, dd), Origin: "family"})
 		}
+		if execFamilies[fam] && fam != "wide" {
+			// hostile but small: about 1 KB of text; also executed
+			for _, dd := range []int{16, 18, 20, 24} {
+				cases = append(cases, Case{Stream: "bomb", Family: fam, Depth: dd, Query: bombQuery(fam, dd), Origin: "family-deep"})
+			}
+		}
+	}
+	nFan := 12
+	if o.Tier == "thorough" {
+		nFan = 120
+	}
+	for k := 0; k < nFan; k++ {
+		cases = append(cases, genFanout(r.Fork()))
 	}
 	nCancel := 14
 	if o.Tier == "thorough" {
@@ -88,6 +101,8 @@ func runOne(e *env, c *Case) ([]gqlty.Finding, map[string]interface{}) {
 		return e.runText(c, true)
 	case "bomb":
 		return e.runBomb(c)
+	case "fanout":
+		return e.runFanout(c)
 	case "socket":
 		return e.runSocket(c)
 	case "http":
